@@ -18,6 +18,7 @@ import (
 	"github.com/tetratelabs/wazero/internal/leb128"
 	"github.com/tetratelabs/wazero/internal/testing/binaryencoding"
 	"github.com/tetratelabs/wazero/internal/wasm"
+	"github.com/tetratelabs/wazero/verifharness/memcat"
 )
 
 type VT = wasm.ValueType
@@ -131,6 +132,7 @@ func (a *Asm) If(t VT, has bool) {
 	a.B = append(a.B, wasm.OpcodeIf, b)
 	a.T = append(a.T, "if:"+s)
 }
+
 // BlockT opens a block / loop / if whose block type is a type index (parameters and several results).
 func (a *Asm) BlockT(opc byte, name string, typeIdx uint32) {
 	a.B = append(a.B, opc)
@@ -437,6 +439,7 @@ type Config struct {
 	Bulk                         bool // memory.copy / memory.fill
 	TailCalls                    bool // return_call (needs experimental.CoreFeaturesTailCall)
 	SIMD                         bool // v128 locals and lane-wise integer ops (outside the Lean fragment)
+	Atomics                      bool // atomic loads / stores / read-modify-writes / compare-exchanges / notify (threads feature, run single-threaded; outside the Lean fragment)
 	BlockParams                  bool // block / loop / if with parameters and several results, taken back edges with operands (outside the Lean fragment)
 }
 
@@ -962,8 +965,10 @@ func (g *fgen) stmt(depth int) {
 			}
 		}
 	case 19, 20:
-		if g.cfg.BlockParams {
+		if g.cfg.BlockParams && (r.Intn(2) == 0 || !(g.cfg.Atomics || g.cfg.SIMD)) {
 			g.paramBlock(depth)
+		} else if g.m.HasMem && (g.cfg.Atomics || g.cfg.SIMD) {
+			g.catalogueAccess(depth)
 		}
 	case 13:
 		g.pressure(depth)
@@ -1019,6 +1024,67 @@ func (g *fgen) stmt(depth int) {
 			g.a.If(0, false)
 			g.a.Unreachable()
 			g.a.End()
+		}
+	}
+}
+
+// catalogueAccess: one memory instruction from the complete catalogue (package memcat) that the plain load/store
+// statements do not reach: every atomic form (with cfg.Atomics) and the v128 splat / extend / zero / lane forms
+// (with cfg.SIMD).  The address is aligned and mostly in bounds; operands are expressions; results go to locals.
+func (g *fgen) catalogueAccess(depth int) {
+	r := g.r
+	var cands []memcat.Op
+	for _, o := range memcat.All() {
+		vec := o.Kind == "vload" || o.Kind == "vlload" || o.Kind == "vlstore"
+		if (o.Atomic && g.cfg.Atomics) || (vec && g.cfg.SIMD) {
+			cands = append(cands, o)
+		}
+	}
+	if len(cands) == 0 {
+		return
+	}
+	o := cands[r.Intn(len(cands))]
+	vt := func(c byte) VT {
+		switch c {
+		case 'I':
+			return I64
+		case 'f':
+			return F32
+		case 'F':
+			return F64
+		case 'v':
+			return V128
+		}
+		return I32
+	}
+	// address: (expr & 0xfff8) so that it is aligned for every width and within the first page (a memory of 0 pages
+	// traps on both engines alike); one in eight unmasked (unaligned / out of bounds: both engines must trap alike)
+	g.expr(I32, depth+1)
+	if r.Intn(8) > 0 {
+		g.a.I32Const(0xfff8)
+		g.a.Num(wasm.OpcodeI32And)
+	}
+	switch o.Kind {
+	case "store", "rmw":
+		g.expr(vt(o.Res), depth+1)
+	case "cmpxchg":
+		g.expr(vt(o.Res), depth+1)
+		g.expr(vt(o.Res), depth+1)
+	case "notify":
+		g.expr(I32, depth+1)
+	case "vlload", "vlstore":
+		g.vexpr(depth + 1)
+	}
+	g.a.B = append(g.a.B, o.Instr(uint32(r.Intn(3))*uint32(o.W))...)
+	g.a.T = append(g.a.T, "memcat:"+o.Name)
+	if res := o.Result(); res != 0 {
+		t := vt(res)
+		if !g.ok(t) {
+			g.a.Drop()
+		} else if ls := g.localsOf(t); len(ls) > 0 {
+			g.a.LocalSet(ls[r.Intn(len(ls))])
+		} else {
+			g.a.Drop()
 		}
 	}
 }
